@@ -185,7 +185,7 @@ def expected_numbers(rx, r, case, surface):
         A = rx.get_A(include_entropy=inc, sden_operation=case['sden_op'] if surface else None, T=T)
         m = getattr(rx, case['act'])
         Ea = m(units=case['unit'], T=T) if 'oRT' not in case['act'] else m(T=T)
-    return [ff.format(A).strip(), ff.format(rx.beta).strip(), ff.format(Ea).strip()]
+    return [ff.format(A).strip(), ff.format(r['beta']).strip(), ff.format(Ea).strip()]
 
 
 def check_mech(case, ctx):
@@ -232,6 +232,20 @@ def check_mech(case, ctx):
     # ------------------------------------------------------------------ surf.inp
     surf_txt = ck.write_surf(reactions=reactions, ads_act_method=case['ads_act'], sden_operation=case['sden_op'],
                              use_mw_correction=case['mw'], **kw)
+    # a mechanism that grew after it was first written is written like one built complete
+    if len(rxns) >= 2:
+        from pmutt.reaction import Reactions as _Reactions
+        grown = _Reactions(reactions=rxns[:len(rxns) // 2])
+        ck.write_surf(reactions=grown, ads_act_method=case['ads_act'], sden_operation=case['sden_op'],
+                      use_mw_correction=case['mw'], **kw)
+        grown.reactions.extend(rxns[len(rxns) // 2:])
+        again = ck.write_surf(reactions=grown, ads_act_method=case['ads_act'], sden_operation=case['sden_op'],
+                              use_mw_correction=case['mw'], **kw)
+        if data_lines(again) != data_lines(surf_txt):
+            diff = [(a_, b_) for a_, b_ in zip(data_lines(again), data_lines(surf_txt)) if a_ != b_][:2]
+            ctx.fail('C06.mech/surf:grown-mechanism-written-differently', '%d vs %d lines; first differences %r' % (
+                len(data_lines(again)), len(data_lines(surf_txt)), diff))
+        ctx.label('grown-mechanism')
     slines = data_lines(surf_txt)
     i_end = slines.index('END') if 'END' in slines else None
     if i_end is None:
@@ -336,7 +350,9 @@ def check_mech(case, ctx):
                          '%s: file %s model %s' % (s_, g_, e_))
         # independent value of the pre-exponential factor where it does not involve an activation entropy:
         # kB/h / sigma_eff^(n-1), n = number of surface (non-bulk) reactants, as the file header documents
-        if r['kind'] == 'surf' and (not r['ts'] or case['act'] in ('get_G_act', 'get_GoRT_act')):
+        # (every species here is a NASA polynomial: no partition function, q = 1, so the transition state adds nothing
+        #  to A on the default route either - whatever the temperature exponent beta is)
+        if r['kind'] == 'surf':
             from pmutt import constants as c_
             dens = []
             for k2, i2, c2 in r['react']:
